@@ -143,17 +143,18 @@ def _sq_le(env, a, b, why):
     env.assume(Cons((b * b - a * a).p.real(), ">="), why)
 
 
-def small_angle_lemmas(env, beta, why="", full=True):
+def small_angle_lemmas(env, beta, why="", full=True, half=True):
     """for the real value beta (a Q-linear form in angle inputs and pi):
-         sin(beta/2)^2 <= beta^2/4,  1 - cos(beta/2) <= beta^2/8,
+         sin(beta/2)^2 <= beta^2/4,  1 - cos(beta/2) <= beta^2/8      (half=True)
          sin(beta)^2   <= beta^2,    1 - cos(beta)   <= beta^2/2       (full=True)
     true for every real beta.  In symbolic mode they are added to the path condition; nothing in concrete mode."""
     if not env.symbolic:
         return
     beta = Sym.of(beta)
     h = beta / 2
-    _sq_le(env, h.sin(), h, f"lemma |sin(x/2)| <= |x|/2 {why}")
-    env.assume(Cons((beta * beta / 8 - (1 - h.cos())).p.real(), ">="), f"lemma 1-cos(x/2) <= x^2/8 {why}")
+    if half:
+        _sq_le(env, h.sin(), h, f"lemma |sin(x/2)| <= |x|/2 {why}")
+        env.assume(Cons((beta * beta / 8 - (1 - h.cos())).p.real(), ">="), f"lemma 1-cos(x/2) <= x^2/8 {why}")
     if full:
         _sq_le(env, beta.sin(), beta, f"lemma |sin x| <= |x| {why}")
         env.assume(Cons((beta * beta / 2 - (1 - beta.cos())).p.real(), ">="), f"lemma 1-cos x <= x^2/2 {why}")
@@ -169,32 +170,61 @@ def periodic_small_angle_lemmas(env, theta, ms=range(-3, 4), full=True):
         small_angle_lemmas(env, Sym.of(theta) - 2 * m * pi, why="(instantiated at x = angle - 2*pi*m)", full=full)
 
 
-def link_rounds(env):
-    """Gate.__eq__ compares round(x, 7).  For every two rounded values on the current path:
-          round(x_i) == round(x_j)  ->  x_i == x_j                      ('rounding sliver' assumption, see META)
-          x_i == x_j  ->  exp(i (x_i - x_j)/2) == 1                     (sound: exp(0) = 1)
+def _half_needed(polys):
+    """real variables whose exp-variable occurs with a non-integer exponent in the given Sym values"""
+    ctx = num.ctx()
+    out = set()
+    for x in polys or ():
+        if not isinstance(x, Sym):
+            continue
+        for (k, vs) in x.p.t:
+            for v, e in vs:
+                if ctx.kind[v] == "exp" and F(e).denominator != 1:
+                    for rv, _ in ctx.info[v]:
+                        out.add(rv)
+    return out
+
+
+def link_rounds(env, consts=(), polys=None):
+    """Gate.__eq__ compares round(x, 7).  For every two rounded values x_i, x_j on the current path (and every
+    concrete constant angle c in `consts`, reduced to [0, 2*pi) and rounded the way the code does it):
+          round(x_i) == round(x_j)  ->  x_i == x_j                       ('rounding sliver' assumption, see META)
+          x_i == x_j                ->  exp(i x_i/2) == exp(i x_j/2)     (sound: same argument)
     The second fact is what ties equal VALUES to equal (cos, sin) pairs."""
     if not env.symbolic:
         return 0
-    tab = list(num.ctx().__dict__.get("_rounds", {}).values())
+    import math
+    tab = [(x, Poly.var(n), sc) for (x, n, sc) in num.ctx().__dict__.get("_rounds", {}).values()]
+    pi = num.sym_pi()
+    for c in consts:
+        k = math.floor(c / (2 * math.pi))
+        x = (Sym.of(c) - 2 * k * pi).p
+        r = round(c % (2 * math.pi), 7)
+        tab.append((x, Poly.const(F(round(r * 10 ** 7))), F(10) ** 7))
     cnt = 0
+    half = _half_needed(polys) if polys is not None else None
+    why = "rounding sliver excluded: reduced gate parameters that round to the same 7-digit value are equal"
     for i in range(len(tab)):
         for j in range(i + 1, len(tab)):
             (xi, ni, si), (xj, nj, sj) = tab[i], tab[j]
             if si != sj:
                 continue
             d = xi.sub(xj)
-            if d.is_zero():
+            nn = ni.sub(nj)
+            if d.is_zero() or nn.const_value() is not None:
                 continue
+            # the link is stated at the granularity (theta or theta/2) at which the angles occur in `polys`
+            q = F(1, 2) if (half is None or (xi.variables() | xj.variables()) & half) else F(1)
             try:
-                e = num.cis_poly(d.scale(F(1, 2)))
+                e = num.cis_poly(xi.scale(q)).sub(num.cis_poly(xj.scale(q)))
             except num.SymEscape:
                 continue
-            one = Poly.const(1)
-            concl = smt.f_and(Cons(d, "=="), Cons(e.real().sub(one), "=="), Cons(e.imag(), "=="))
-            nn = Poly.var(ni).sub(Poly.var(nj))
-            env.assume(smt.f_or(Cons(nn, "!="), concl),
-                       "rounding sliver excluded: reduced gate parameters that round to the same 7-digit value are equal")
+            concl = [Cons(d, "==")]
+            if e.real().t:
+                concl.append(Cons(e.real(), "=="))
+            if e.imag().t:
+                concl.append(Cons(e.imag(), "=="))
+            env.assume(smt.f_or(Cons(nn, "!="), smt.f_and(*concl)), why)
             cnt += 1
     return cnt
 
@@ -253,7 +283,8 @@ def near_phase_identity(env, D, dim, tol, label, phases=(1, -1)):
     tr = sum(complex(D[i * dim + i]) for i in range(dim))
     ph = tr / abs(tr) if abs(tr) > 1e-12 else 1
     dopt = max(abs(complex(D[j * dim + i]) - (ph if i == j else 0)) for i in range(dim) for j in range(dim))
-    best = min(best, dopt)
+    if len(phases) > 1:
+        best = min(best, dopt)
     env.check_true(best <= float(tol) + 1e-8, label, detail=f"distance to the nearest global phase = {best:.6g} > threshold {float(tol):.6g}")
 
 
